@@ -410,6 +410,7 @@ def assemble(unit_dir, mode='verify'):
             fn['anchors_lost'] = len(r.get('missing_anchors', []))
             fn['loop_kinds'] = list(r.get('loop_kinds') or [])
             fn['anchor_depths'] = [v for k, v in sorted((int(k), v) for k, v in (r.get('anchor_depths') or {}).items())]
+            fn['ctrl'] = list(r.get('ctrl') or [])
             fn['first_line'] = len(g.lines) + 1
             retname = c.opts.get('ret', 'r')
             if r['impl_header']:
